@@ -6,7 +6,7 @@ From ZV Require Import Model.Regex Generated.LexTables Model.Lexer Model.Reader 
 Import ListNotations.
 Open Scope Z_scope.
 
-Definition qapp (q u : queue) : queue := mkQ (q_toks q ++ q_toks u) (q_err u).
+Definition qapp (q u : queue) : queue := mkQ (q_toks q ++ q_toks u) (q_err u) (q_instr u).
 
 Definition is_sugar (t : token) : bool :=
   match t_kind t with TQuote | TCaret | TTilde | TTildeAt | TBackslash => true | _ => false end.
@@ -41,7 +41,7 @@ Lemma qapp_nil : forall q, q_toks q = [] -> qapp q u = u.
 Proof. intros q H; unfold qapp; rewrite H; destruct u; reflexivity. Qed.
 
 Lemma qapp_tail : forall q, q_toks q <> [] -> q_tail (qapp q u) = qapp (q_tail q) u.
-Proof. intros [t e] H; simpl in *. destruct t; [congruence|reflexivity]. Qed.
+Proof. intros [t e i] H; simpl in *. destruct t; [congruence|reflexivity]. Qed.
 
 Lemma tok_at_qapp : forall q n, (n < length (q_toks q))%nat -> tok_at (qapp q u) n = tok_at q n.
 Proof. intros q n H; unfold tok_at, qapp; simpl. apply app_nth1; exact H. Qed.
@@ -56,7 +56,7 @@ Lemma q_tail_err : forall q, q_err (q_tail q) = q_err q.
 Proof. reflexivity. Qed.
 
 Lemma okb_tail : forall q, q_toks q <> [] -> okb b (q_toks q ++ q_toks u) -> okb b (q_toks (q_tail q) ++ q_toks u).
-Proof. intros [t e] H Hok; simpl in *. destruct t; [congruence|]. simpl in Hok. eapply okb_tl; exact Hok. Qed.
+Proof. intros [t e i] H Hok; simpl in *. destruct t; [congruence|]. simpl in Hok. eapply okb_tl; exact Hok. Qed.
 
 (* ---- the yielding look-ahead ---- *)
 Lemma need_resume : forall acc n q k,
@@ -84,7 +84,7 @@ Proof.
   - rewrite Hq. rewrite (qapp_nil q E). destruct b'.
     + simpl. unfold need, look. simpl. destruct (q_toks u) as [|t' r'] eqn:Eu.
       * simpl. destruct (q_err u); reflexivity.
-      * simpl. destruct u as [ut ue]; simpl in *; subst ut; reflexivity.
+      * simpl. destruct u as [ut ue ui]; simpl in *; subst ut; reflexivity.
     + apply Hend; reflexivity.
   - rewrite Hk by discriminate. unfold look, qapp; simpl. rewrite E; reflexivity.
 Qed.
@@ -271,11 +271,11 @@ Proof.
           intros Hb Hnil2. rewrite Hrest by assumption. rewrite (qapp_nil q2 Hnil2).
           unfold look. destruct (q_toks u) as [|t r] eqn:Eu.
           * destruct (q_err u) eqn:Ee.
-            -- rewrite (Hu Hb) in Ee; discriminate.
-            -- reflexivity.
+            -- pose proof (Hu Hb) as X; congruence.
+            -- rewrite Hb; reflexivity.
           * (* the next token is not a backslash *)
-            replace (kind_is (tok_at u 0) TBackslash) with false; [reflexivity|].
-            symmetry. subst b. rewrite Hnil2 in Hok2. simpl in Hok2. rewrite Eu in Hok2.
+            replace (kind_is (tok_at u 0) TBackslash) with false; [rewrite Hb; reflexivity|].
+            symmetry. rewrite Hnil2 in Hok2. simpl in Hok2. rewrite Hb in Hok2.
             apply okb_hd in Hok2. unfold tok_at. rewrite Eu. simpl. unfold kind_is, is_sugar in *.
             destruct (t_kind t); try reflexivity; discriminate. }
     assert (Parray (S f)) as HA.
@@ -298,4 +298,116 @@ Proof.
     repeat split; assumption.
 Qed.
 
+
+(* ---- ParsingIter: the whole coroutine, including the restart after it saw the end of the input ---- *)
+Lemma ptop_resume : forall f acc q,
+  q_err q = false -> okb b (q_toks q ++ q_toks u) ->
+  resume b (ptop b f acc q) u = ptop b f acc (qapp q u).
+Proof.
+  induction f as [|f IH]; intros acc q Hq Hok; [reflexivity|].
+  simpl ptop. apply (proj1 (main_resume f)); [exact Hq|exact Hok|discriminate| |].
+  - red. intros e q' He Hq' Hok'. rewrite He. apply IH; assumption.
+  - intros _ _. simpl. destruct (q_instr q); reflexivity.
+Qed.
+
 End Resume.
+
+(* ---- token level: resuming = running on the longer token list ---- *)
+Theorem resume_is_rerun : forall b f acc t1 i1 t2 e2 i2,
+  (b = true \/ (nosugar (t1 ++ t2) /\ e2 = false)) ->
+  resume b (ptop b f acc (mkQ t1 false i1)) (mkQ t2 e2 i2) = ptop b f acc (mkQ (t1 ++ t2) e2 i2).
+Proof.
+  intros b f acc t1 i1 t2 e2 i2 H.
+  apply (ptop_resume b (mkQ t2 e2 i2)); simpl.
+  - intros Hb. destruct H as [H|[_ H]]; [congruence|exact H].
+  - reflexivity.
+  - destruct H as [H|[H _]]; [left; exact H|right; exact H].
+Qed.
+
+(* ---- delivery of a text in pieces ---- *)
+
+(* the state of a parser that has been reset and then given the text t in any number of pieces *)
+Definition after_text (b : bool) (fuel : nat) (t : list Z) : pstate :=
+  let x := lex_all init_lstate t in
+  mkP (set_tokens [] (lres_state x))
+      (ptop b fuel [] (mkQ (l_tokens (lres_state x)) (negb (lres_ok x)) (in_string_or_rune (lres_state x)))).
+
+Lemma set_tokens_pre_q : forall pre s, set_tokens [] (pre_q pre s) = set_tokens [] s.
+Proof. intros pre s; destruct s; reflexivity. Qed.
+
+Lemma l_tokens_pre_q : forall pre s, l_tokens (pre_q pre s) = pre ++ l_tokens s.
+Proof. intros pre s; destruct s; reflexivity. Qed.
+
+Lemma in_str_pre_q : forall pre s, in_string_or_rune (pre_q pre s) = in_string_or_rune s.
+Proof. intros pre s; destruct s; reflexivity. Qed.
+
+Lemma deliver_first : forall b fuel p t,
+  p_deliver b (p_reset fuel p) t = after_text b fuel t.
+Proof.
+  intros b fuel p t. unfold p_deliver, p_reset, after_text; simpl.
+  rewrite reset_is_init. reflexivity.
+Qed.
+
+Definition cont_ok (b : bool) (t c : list Z) : Prop :=
+  b = true \/ (nosugar (l_tokens (lres_state (lex_all init_lstate (t ++ c)))) /\
+               lres_ok (lex_all init_lstate (t ++ c)) = true).
+
+Lemma deliver_next : forall b fuel t c,
+  lres_ok (lex_all init_lstate t) = true -> cont_ok b t c ->
+  p_deliver b (after_text b fuel t) c = after_text b fuel (t ++ c).
+Proof.
+  intros b fuel t c Hok Hc. unfold cont_ok in Hc. unfold p_deliver, after_text in *. cbn [ps_lex ps_out].
+  rewrite (lex_all_app t c) in *.
+  destruct (lex_all init_lstate t) as [s|s]; [|discriminate]. cbn [lres_state lres_ok negb] in *.
+  rewrite (lex_all_emptied s c) in *.
+  destruct (lex_all (set_tokens [] s) c) as [s'|s']; cbn [lres_map lres_state lres_ok negb] in *;
+    rewrite set_tokens_pre_q, l_tokens_pre_q, in_str_pre_q in *.
+  - f_equal. apply resume_is_rerun. destruct Hc as [Hc|[Hc _]]; [left; exact Hc|right; split; [exact Hc|reflexivity]].
+  - f_equal. apply resume_is_rerun. destruct Hc as [Hc|[_ Hc]]; [left; exact Hc|discriminate].
+Qed.
+
+(* every proper prefix of the pieces lexes without error; for the parser as it is also: the whole
+   text lexes without error and has no quote-sugar / backslash token *)
+Fixpoint pieces_ok (b : bool) (t : list Z) (pieces : list (list Z)) : Prop :=
+  match pieces with
+  | [] => True
+  | c :: rest => lres_ok (lex_all init_lstate t) = true /\ cont_ok b t c /\ pieces_ok b (t ++ c) rest
+  end.
+
+Lemma deliver_all_from : forall b fuel pieces t,
+  pieces_ok b t pieces ->
+  p_deliver_all b (after_text b fuel t) pieces = after_text b fuel (t ++ concat pieces).
+Proof.
+  induction pieces as [|c rest IH]; intros t H; simpl.
+  - rewrite app_nil_r; reflexivity.
+  - destruct H as [H1 [H2 H3]]. rewrite (deliver_next b fuel t c H1 H2), (IH _ H3), app_assoc. reflexivity.
+Qed.
+
+Lemma concat_mark_last : forall pieces, concat (mark_last pieces) = concat pieces ++ nl.
+Proof.
+  induction pieces as [|x rest IH]; [reflexivity|].
+  destruct rest as [|y rest'].
+  - simpl. rewrite !app_nil_r. reflexivity.
+  - change (mark_last (x :: y :: rest')) with (x :: mark_last (y :: rest')).
+    change (concat (x :: mark_last (y :: rest'))) with (x ++ concat (mark_last (y :: rest'))).
+    rewrite IH. change (concat (x :: y :: rest')) with (x ++ concat (y :: rest')).
+    rewrite app_assoc. reflexivity.
+Qed.
+
+Theorem pieces_is_whole : forall b fuel pieces,
+  match mark_last pieces with
+  | [] => True
+  | first :: rest => pieces_ok b first rest
+  end ->
+  parse_pieces b fuel pieces = parse_whole b fuel (concat pieces).
+Proof.
+  intros b fuel pieces H. unfold parse_pieces, parse_whole, parse_after.
+  rewrite deliver_first, <- concat_mark_last.
+  destruct (mark_last pieces) as [|first rest] eqn:E.
+  - destruct pieces as [|x [|y r]]; discriminate.
+  - cbn [p_deliver_all]. rewrite deliver_first. rewrite (deliver_all_from b fuel rest first H). reflexivity.
+Qed.
+
+(* history: whatever state the parser is in, ResetAddNewInput starts from the initial one *)
+Theorem parse_after_any : forall b fuel p text, parse_after b fuel p text = parse_whole b fuel text.
+Proof. intros. unfold parse_whole, parse_after. rewrite !deliver_first. reflexivity. Qed.
